@@ -27,6 +27,10 @@ CFG = "INIT Init\nNEXT Next\n"
 FORMS = ("uncompressed", "compressed", "hybrid")
 CPES = ("named_curve", "explicit")
 DOCUMENTED = ("UnexpectedDER", "MalformedPointError", "UnknownCurveError", "ValueError")
+# SigningKey.to_der leaves the generator of explicit parameters uncompressed and from_der ignores the [1] public key,
+# so the three point forms of a private key with explicit parameters differ only in bytes the decoder never reads:
+# one form per container is damaged (the others cost ~25 ms per accepted mutant on the 512/521-bit curves)
+SKIP_DAMAGE = ("sec1/explicit/compressed", "sec1/explicit/hybrid", "pkcs8/explicit/uncompressed", "pkcs8/explicit/hybrid")
 CPU_LIMIT_S = 120           # CPU seconds (ITIMER_VIRTUAL, not wall clock) for one decoder call
 
 
@@ -502,7 +506,7 @@ def _model_checking(rep, tier, wd):
                        "INIT InitTrees\nNEXT NextTrees\n" + c2 + "INVARIANTS SomeLong\n", "SomeLong", wd))
     _mc(rep, "MC_DERTrees/LenForms (every 1-4 octet length prefix: accepted <=> the unique minimal form; 0x80 rejected)", "MC_DERTrees.tla",
         "INIT InitLen\nNEXT NextLen\n" + c2 + "INVARIANTS LenForms\n", wd, 4, {"b0": "{0,129,130,131,132}", "b1": "0..255", "b2": "0..255"})
-    vals = "0..255" if th else "{0,1,2,3,4,5,6,7,9,47,48,49,127,128,129,130,160,161,255}"
+    vals = "{%s}" % ",".join(map(str, range(256))) if th else "{0,1,2,3,4,5,6,7,9,47,48,49,127,128,129,130,160,161,255}"
     c3 = "CONSTANTS\n Vals = %s\n" % vals
     _mc(rep, "MC_KeyEnc/Header (27-byte P-256 header lemma, per-curve header, all 27x255 one-byte variants of the header)", "MC_KeyEnc.tla",
         "INIT InitHdr\nNEXT NextHdr\n" + c3 + "INVARIANTS HeaderUnique\n", wd, 4, {"lemma": "ASSUME HeaderLemma /\\ HeaderPerCurve", "positions": 27, "values": 256})
@@ -510,7 +514,7 @@ def _model_checking(rep, tier, wd):
                        "BadHeaderLemma", wd))
     _mc(rep, "MC_KeyEnc/Toy (27 toy encodings SPKI/SEC1/PKCS#8 x named/explicit/explicit+seed x 3 point forms: fields, truncations, "
              "extensions, single-byte mutants)", "MC_KeyEnc.tla",
-        "INIT InitToy\nNEXT NextToy\n" + c3 + "INVARIANTS Shapes Truncated Extended MutantsTotal VersionRule\n", wd, 8, {"Vals": vals})
+        "INIT InitToy\nNEXT NextToy\n" + c3 + "INVARIANTS Shapes Truncated Extended MutantsTotal VersionRule\n", wd, 8, {"Vals": "0..255" if th else vals})
     st.append(_refuted("vacuity: some single-byte mutant is accepted by the shape parsers", "MC_KeyEnc.tla",
                        "INIT InitToy\nNEXT NextToy\n" + c3 + "INVARIANTS SomeMutantAccepted\n", "SomeMutantAccepted", wd))
     return st
@@ -655,6 +659,8 @@ def run(tier):
                 d = keys[cname][0][1]
                 be = _base_encodings(cname, d)
                 for label, (dec, layer, base) in be.items():
+                    if label in SKIP_DAMAGE:
+                        continue
                     bases[(cname, label)] = (dec, layer, base)
                     plan = [("trunc", k, 0) for k in range(len(base))]
                     plan += [("ext", len(base), v) for v in ((65, 61, 10, 120) if layer == "pem" else (0, 255, 48))]
@@ -869,6 +875,8 @@ def run(tier):
         pcnt = {}
         for e in pev[:-1]:
             pcnt[e["op"]] = pcnt.get(e["op"], 0) + 1
+        stp = {k: v for k, v in stp.items() if k != "events"}
+        stk = {k: v for k, v in stk.items() if k != "events"}
         rep.add_trace("Trace_DER (der.py primitives: lengths, INTEGER, OID, wrappers, damaged primitives)", stp, len(pev) - 1, True, {"by_op": pcnt})
         rep.add_trace("Trace_KeyEnc/encodings (library DER/PEM/point/scalar encodings of %d keys on 17 curves + bec2format header: bytes and round trip)"
                       % sum(len(v) for v in keys.values()), stk, n_spec, True, {"by_op": {k: cnt.get(k, 0) for k in ("enc", "pt", "pem", "hdr")}})
